@@ -206,6 +206,18 @@ func vxRunCode() int {
 	return 0
 }
 
+func vxTraceChan(ch interface{}) {
+	panic("vxTraceChan: environment-model function, not available in native replay")
+}
+
+func vxTraceMutex(p interface{}) {
+	panic("vxTraceMutex: environment-model function, not available in native replay")
+}
+
+func vxTraceMark(s string) {
+	panic("vxTraceMark: environment-model function, not available in native replay")
+}
+
 func vxYield() {
 	
 }
